@@ -33,6 +33,7 @@
         state") is FALSE for `CrashInv` (the consumer-creating transaction of PUT /allocations relies
         on the project recorded by an earlier transaction of the same request): this is why the
         statement is path-based.
+  * `completed_CrashInv`                                  ... and so does the completed request.
   * `main_write_single_txn`                               at every crash point the state is the start state
         plus auxiliary records only (`AuxOnly`), or the request has finished.
   * `wholly_present_or_absent`, `..._core`                hence every crash state is `AuxOnly` the start
@@ -53,7 +54,20 @@
   over-commit), so it is stated as "no crash state has other inventories / allocations than the state
   before or after the completed request".
 
-  Helper lemmas: `Placement/Lemmas/Crash*.lean`.
+  Hypotheses / not covered:
+  * "the completed request" is `Prog.runSeq fuel (prog cfg op) db = (db', some r)` for some fuel (a hypothesis
+    of the theorems that mention it; satisfiable, see the examples; the driver uses fuel 500).  Termination
+    of `prog` for every request is not proved here, and the agreement of the completed transaction program
+    with the one-step handler model `step` is proved in Lean only for the guarded two-transaction writes
+    (`Sched.guardedUpdate_runSeq`); for the allocation writes it is checked by the correspondence harness.
+  * One request crashing while it runs ALONE.  With other requests interleaved only the hierarchy part is
+    claimed (`every_txn_preserves_hierarchy`); `RI` can really be broken by interleavings (known finding I:
+    the race loser's clean-up deletes a consumer row that meanwhile holds allocations), independent of crashes.
+  * A crash inside a transaction = the prefix before it (database rollback): this is the definition of
+    `runPrefix` / `runWrites`, validated on the real code by the crash-injection harness, not a theorem.
+
+  Helper lemmas: `Placement/Lemmas/Crash*.lean` (`Crash.Path`, `Crash.AuxOnly`, `Crash.G`, `Crash.Ph`, `Crash.prog_path`,
+  `Crash.replaceAll_wfi` - `replace_all` with the partial effects of failed attempts keeps the invariants).
 -/
 import Placement.Lemmas.CrashOther
 import Placement.Lemmas.WfExample
@@ -109,6 +123,13 @@ theorem writes_CrashInv (cfg : Config) {db : DB R} (h : CrashInv db) (op : Op R)
     CrashInv (Prog.runWrites fuel j (prog cfg op) db).1 := by
   obtain ⟨k, hk⟩ := runWrites_eq_runPrefix fuel j (prog cfg op) db
   rw [hk]; exact prefix_CrashInv cfg h op hwf k
+
+/-- in particular the state of the completed request satisfies `CrashInv` -/
+theorem completed_CrashInv (cfg : Config) {db db' : DB R} (h : CrashInv db) (op : Op R) (hwf : OpWF op)
+    {fuel : Nat} {r : Resp} (hfin : Prog.runSeq fuel (prog cfg op) db = (db', some r)) : CrashInv db' := by
+  obtain ⟨k, hk⟩ := runSeq_some_runPrefix fuel (prog cfg op) db db' r hfin
+  have := prefix_CrashInv cfg h op hwf k
+  rwa [hk] at this
 
 /-! ## wholly present or wholly absent -/
 
@@ -228,7 +249,17 @@ def exPost : Op Nat :=
                  { uuid := 502, project := some 71, user := some 8, ctype := none, gen := none,
                    allocs := [(101, 0, 3)] }]
 
-example : CrashInv exDb ∧ OpWF exPut ∧ OpWF exPost := ⟨crashInv_exDb, by decide, by decide⟩
+/-- POST /reshaper at 1.30: provider 102 (generation 1) gets inventory of class 0, consumer 500 keeps its 2
+units on provider 101 -/
+def exReshape : Op Nat :=
+  .reshape 30 [{ uuid := 102, gen := 1, invs := [{ rcName := 0, total := 4, reserved := 0, minUnit := 1,
+                                                    maxUnit := 4, stepSize := 1, ratio := 1 }] }]
+    [{ uuid := 500, project := some 7, user := some 8, ctype := none, gen := some 1, allocs := [(101, 0, 2)] }]
+
+example : CrashInv exDb ∧ OpWF exPut ∧ OpWF exPost ∧ OpWF exReshape :=
+  ⟨crashInv_exDb, by decide, by decide, by decide⟩
+
+example : (Prog.runSeq 20 (prog exCfg exReshape) exDb).2 = some r204 := by decide
 
 /-- the requests complete (8 and 13 transactions) -/
 example : (Prog.runSeq 20 (prog exCfg exPut) exDb).2 = some r204 := by decide
